@@ -137,6 +137,15 @@ def check_wrapper(chk):
             if not is_fv and _host_operator_table_call(mod, func, call, callee):
                 chk.ok('C05.W', f'{fname}: {norm(call)[:60]} calls an entry of a module-level table of host operator functions (not a script function value)', trivial=True)
                 continue
+            prov = provenance(mod, func, callee) if callee.isidentifier() else []
+            if not is_fv and prov and all(p in mod.funcs or p in mod.imports for p in prov):
+                # a local alias of module-level functions (evaluate = evaluate_expression): a static call under another name; its effects are those of the functions
+                chk.ok('C05.W', f'{fname}: {norm(call)[:60]} calls a local alias of {", ".join(prov)}', trivial=True)
+                continue
+            if not is_fv and prov and all(len(p.split('.')) == 2 and p.split('.')[0] in params and p.split('.')[1] in ('get', 'items', 'keys', 'values', 'setdefault', 'pop', 'update', 'append')
+                                          for p in prov):
+                chk.ok('C05.W', f'{fname}: {norm(call)[:60]} calls a bound method of a host container parameter ({", ".join(prov)})', trivial=True)
+                continue
             if not is_fv:
                 chk.unrec('C05.W', f'{fname}: dynamic call {norm(call)[:80]} is neither a function value call f(args, options) nor a known option callback (origins: {origins[:120]})', mod.rel)
                 continue
